@@ -213,7 +213,12 @@ fn resolve_task(st: &St, pid: &str, tref: &Value) -> String {
         Value::Object(o) if o.contains_key("open") || o.contains_key("any") || o.contains_key("term") || o.contains_key("acts") => {
             // k-th (modulo) task of a class, in creation order, resolved on the live process
             let (class, k) = o.iter().next().map(|(c, k)| (c.clone(), k.as_u64().unwrap_or(0) as usize)).unwrap();
-            let dump = st.engine.verif_dump(pid).unwrap_or(Value::Null);
+            // an evicted (or not yet reloaded) process is resolved on its stored rows
+            let dump = st.engine.verif_dump(pid).unwrap_or_else(|| {
+                let q = json!({"conds":[{"type":"and","exprs":[["eq","pid",pid]]}],"order":[["timestamp", false]],"limit":100000});
+                let r = storeops::store_op(&st.engine, "tasks", "query", &q);
+                json!({"tasks": r.get("rows").cloned().unwrap_or(Value::Null)})
+            });
             let empty = vec![];
             let tasks = dump.get("tasks").and_then(|x| x.as_array()).unwrap_or(&empty);
             let terminal = ["completed", "submitted", "backed", "cancelled", "error", "aborted", "skipped", "removed"];
